@@ -14,3 +14,105 @@ package layer4
 // wfm: the connection as a matcher sees it (frozen: reads are served from the buffer only).
 //@ pred wfm(cx *Connection) = wfcx(cx) && cx.matching
 //@ ghostfn avail(cx *Connection) int = len(cx.buf) - cx.offset
+
+// Abstract view (C01): a Connection is a net.Conn over the stream of its inner conn. The buffer
+// holds exactly the last len(buf) bytes pulled from the inner conn; the next byte a reader of the
+// Connection gets is stream position vpos. Outside matching mode the buffer is either empty or
+// has unread bytes (unread); in matching mode that holds for the frozen offset.
+//@ pred ok(cx *Connection) = cx != nil && cx.Conn != nil && 0 <= cx.offset && cx.offset <= len(cx.buf)
+//@   && len(cx.buf) <= rpos(cx.Conn) && rpos(cx.Conn) < 4611686018427387904 && !inpool(arr(cx.buf))
+//@ pred unread(cx *Connection, o int) = o < len(cx.buf) || (o == 0 && len(cx.buf) == 0)
+//@ pred shape(cx *Connection) = ok(cx)
+//@   && (cx.matching ==> 0 <= cx.frozenOffset && cx.frozenOffset <= cx.offset && unread(cx, cx.frozenOffset))
+//@   && (!cx.matching ==> unread(cx, cx.offset))
+//@ pred mirrors(cx *Connection) = forall k int :: 0 <= k && k < len(cx.buf) ==> cx.buf[k] == rstream(cx.Conn)[rpos(cx.Conn) - len(cx.buf) + k]
+//@ pred wf(cx *Connection) = shape(cx) && mirrors(cx)
+//@ ghostfn vpos(cx *Connection) int = rpos(cx.Conn) - len(cx.buf) + cx.offset
+// same: the buffer and the inner connection are exactly as before (what a matcher must leave alone).
+//@ pred samebuf(cx *Connection, b []byte, c net.Conn, r int) = sameslice(cx.buf, b) && cx.Conn == c && rpos(cx.Conn) == r
+
+//@ func (cx *Connection) Read(p []byte) (n int, err error)
+//@ requires wf(cx) && sep(p, cx.buf)
+//@ safety C04
+//@ assigns[C06] p, cx.offset, cx.buf, cx.bytesRead, rpos(cx.Conn)
+//@ ensures[C01] wf(cx) && 0 <= n && n <= len(p)
+//@ ensures[C01] forall k int :: 0 <= k && k < n ==> p[k] == rstream(cx.Conn)[old(vpos(cx)) + k]
+//@ ensures[C01] vpos(cx) == old(vpos(cx)) + n
+//@ ensures[C01] cx.matching == old(cx.matching) && cx.frozenOffset == old(cx.frozenOffset) && cx.Conn == old(cx.Conn)
+//@ ensures[C06] old(cx.matching) ==> rpos(cx.Conn) == old(rpos(cx.Conn)) && sameslice(cx.buf, old(cx.buf)) && bytes(cx.buf) == old(bytes(cx.buf))
+//@ ensures[C06] old(cx.matching) && old(cx.offset) == old(len(cx.buf)) ==> n == 0 && err == ErrConsumedAllPrefetchedBytes
+//@ ensures[C06] old(cx.offset) < old(len(cx.buf)) ==> err == nil && n == min(len(p), old(len(cx.buf) - cx.offset))
+//@ ensures[C01] old(cx.offset) < old(len(cx.buf)) ==> rpos(cx.Conn) == old(rpos(cx.Conn))
+
+//@ func (cx *Connection) Write(p []byte) (n int, err error)
+//@ requires cx != nil && cx.Conn != nil
+//@ safety C04
+//@ assigns[C01] cx.bytesWritten
+
+//@ func (cx *Connection) freeze()
+//@ requires wf(cx) && (cx.matching ==> cx.offset == cx.frozenOffset)
+//@ safety C04
+//@ assigns[C01] cx.matching, cx.frozenOffset
+//@ ensures[C01] wf(cx) && cx.matching && cx.frozenOffset == cx.offset
+
+//@ func (cx *Connection) unfreeze()
+//@ requires ok(cx) && mirrors(cx) && 0 <= cx.frozenOffset && cx.frozenOffset <= len(cx.buf) && unread(cx, cx.frozenOffset)
+//@ safety C04
+//@ assigns[C01] cx.matching, cx.offset
+//@ ensures[C01] wf(cx) && !cx.matching && cx.offset == cx.frozenOffset
+
+//@ func (cx *Connection) MatchingBytes() []byte
+//@ requires ok(cx)
+//@ safety C04
+//@ assigns[C06] nothing
+//@ ensures[C06] len(result) == len(cx.buf) - cx.offset && samearr(result, cx.buf[cx.offset:])
+
+// prefetch pulls at most one chunk from the inner conn and buffers every byte it pulled.
+//@ func (cx *Connection) prefetch() (err error)
+//@ requires wf(cx) && cx.Logger != nil
+//@ safety C04
+//@ assigns[C01] cx.buf, cx.bytesRead, rpos(cx.Conn)
+//@ modifies ghost:inpool, elem:uint8
+//@ ensures[C01] wf(cx) && vpos(cx) == old(vpos(cx)) && cx.offset == old(cx.offset)
+//@ ensures[C01] rpos(cx.Conn) - old(rpos(cx.Conn)) == len(cx.buf) - old(len(cx.buf)) && len(cx.buf) >= old(len(cx.buf))
+//@ ensures[C05] len(cx.buf) < MaxMatchingBytes + prefetchChunkSize || len(cx.buf) == old(len(cx.buf))
+//@ ensures[C05] old(len(cx.buf)) >= MaxMatchingBytes ==> err == ErrMatchingBufferFull && rpos(cx.Conn) == old(rpos(cx.Conn)) && sameslice(cx.buf, old(cx.buf))
+//@ ensures[C01] !inpool(arr(cx.buf))
+
+// Wrap is only stream-preserving when no buffered bytes are pending (otherwise the new inner conn
+// and the copied buffer would both deliver them): the caller's obligation.
+//@ func (cx *Connection) Wrap(conn net.Conn) *Connection
+//@ requires cx != nil
+//@ safety C04
+//@ assigns[C01] nothing
+//@ ensures[C01] result != nil && fresh(result) && result.Conn == conn && sameslice(result.buf, cx.buf) && result.offset == cx.offset && result.matching == cx.matching
+//@ ensures[C01] result.Context == cx.Context && result.Logger == cx.Logger
+
+// The interface every connection matcher is checked against (refinement) and that the matcher
+// sets rely on: a matcher is entered frozen at the frozen offset, may only move the offset, and
+// leaves the buffer, the inner connection and its stream position alone (C06: it cannot read the
+// network and cannot change what is read later).
+//@ func (m ConnMatcher) Match(cx *Connection) (matched bool, err error)
+//@ requires wfcx(cx) && wf(cx) && cx.matching && cx.offset == cx.frozenOffset
+//@ assigns cx.offset, cx.matching, cx.frozenOffset
+//@ modifies map:string:iface.has, map:string:iface.len, map:string:iface.val.tag, map:string:iface.val.data
+//@ ensures wfcx(cx) && ok(cx) && cx.frozenOffset == old(cx.frozenOffset)
+//@ ensures cx.matching ==> cx.frozenOffset <= cx.offset
+//@ ensures !cx.matching ==> cx.offset == cx.frozenOffset
+
+//@ func (mset MatcherSet) Match(cx *Connection) (matched bool, err error)
+//@ requires wfcx(cx) && wf(cx) && (cx.matching ==> cx.offset == cx.frozenOffset)
+//@ requires forall i int :: 0 <= i && i < len(mset) ==> mset[i] != nil
+//@ safety C04
+//@ assigns[C06] cx.offset, cx.matching, cx.frozenOffset
+//@ modifies map:string:iface.has, map:string:iface.len, map:string:iface.val.tag, map:string:iface.val.data
+//@ invariant wfcx(cx) && wf(cx) && (cx.matching ==> cx.offset == cx.frozenOffset)
+//@ invariant vpos(cx) == old(vpos(cx))
+//@ invariant rangeindex >= 0 ==> !cx.matching
+//@ invariant rangeindex < 0 ==> cx.matching == old(cx.matching)
+//@ invariant rangeindex < 0 ==> err == nil
+//@ ensures[C01] wfcx(cx) && wf(cx) && vpos(cx) == old(vpos(cx))
+//@ ensures[C01] len(mset) > 0 ==> !cx.matching
+//@ ensures[C01] len(mset) == 0 ==> cx.matching == old(cx.matching)
+//@ ensures[C02] len(mset) == 0 ==> matched && err == nil
+//@ ensures[C02] err != nil ==> len(mset) > 0
